@@ -2,6 +2,7 @@ package props
 
 import (
 	"fmt"
+	"io"
 	"net"
 	"os"
 	"path/filepath"
@@ -80,6 +81,7 @@ type rollerServer struct {
 	ln     net.Listener
 	mu     sync.Mutex
 	accept map[string]bool // names of accepted IDs
+	stall  map[string]bool // names of IDs that are never answered (black-holed)
 	byKey  map[string]string
 	log    []rollerHello
 	wg     sync.WaitGroup
@@ -146,8 +148,15 @@ func (rs *rollerServer) serve(c net.Conn) {
 		if strings.HasPrefix(h.ID, "rand:") {
 			h.Accepted = rs.accept["Randomized"]
 		}
+		stalled := rs.stall[h.ID]
 		rs.log = append(rs.log, h)
 		rs.mu.Unlock()
+		if stalled {
+			// a middlebox that swallows this fingerprint: no answer until the client gives up
+			c.SetDeadline(time.Now().Add(30 * time.Second))
+			io.Copy(io.Discard, c)
+			return nil, fmt.Errorf("verif: fingerprint %s black-holed", h.ID)
+		}
 		if !h.Accepted {
 			return nil, fmt.Errorf("verif: fingerprint %s refused", h.ID)
 		}
@@ -390,7 +399,78 @@ func TestC29(t *testing.T) {
 			r.Sample(map[string]any{"configured": cfgNames, "outcomes": outcome})
 		}
 	}
+	// a fingerprint that is swallowed silently (its attempt runs into TlsHandshakeTimeout)
+	// followed by one the server accepts: every configured ID still gets its own attempt.
+	// Verdicts are taken from what the listener received, not from elapsed time: a failed
+	// Dial is a violation only if the accepted fingerprint's hello was never sent.
+	for k := 0; k < mon.Pick(3, 24); k++ {
+		rg := Sub("C29stall", k)
+		names := pickSubset(rg, poolNames, 2, 3)
+		roller, err := tls.NewRoller()
+		if err != nil {
+			break
+		}
+		roller.HelloIDs = nil
+		for _, n := range names {
+			roller.HelloIDs = append(roller.HelloIDs, pool[n])
+		}
+		roller.TcpDialTimeout = 3 * time.Second
+		roller.TlsHandshakeTimeout = 1500 * time.Millisecond
+		rs.mu.Lock()
+		rs.stall = map[string]bool{}
+		rs.mu.Unlock()
+		rs.setAccept(names[:1])
+		rs.takeLog()
+		if c0, err := roller.Dial("tcp", addr, "example.test"); err != nil || c0 == nil {
+			continue // judged by the histories above
+		} else {
+			c0.Close()
+		}
+		x := nameOf(roller.WorkingHelloID)
+		var y string
+		for _, n := range names {
+			if n != x {
+				y = n
+				break
+			}
+		}
+		rs.mu.Lock()
+		rs.stall = map[string]bool{x: true}
+		rs.mu.Unlock()
+		rs.setAccept([]string{y})
+		rs.takeLog()
+		conn, derr := roller.Dial("tcp", addr, "example.test")
+		if conn != nil {
+			conn.SetDeadline(time.Now().Add(3 * time.Second))
+			conn.Write([]byte("ping"))
+			conn.Read(make([]byte, 4))
+			conn.Close()
+		}
+		time.Sleep(2 * time.Millisecond)
+		var seq []string
+		sawY := false
+		for _, h := range rs.takeLog() {
+			seq = append(seq, h.ID)
+			sawY = sawY || h.ID == y
+		}
+		rep := map[string]any{"configured": names, "black_holed": x, "accepted": y, "hellos_received": seq, "dial_error": fmt.Sprint(derr)}
+		switch {
+		case conn != nil && nameOf(&conn.ClientHelloID) == y:
+			r.Count("dials_succeeded_after_a_black_holed_fingerprint", 1)
+		case conn != nil:
+			r.Violation(map[string]string{"kind": "returned_connection_not_first_accepted", "scenario": "black-holed"}, fmt.Sprintf("configured %v, %s black-holed, %s accepted: the returned connection uses %s", names, x, y, nameOf(&conn.ClientHelloID)), rep)
+		case !sawY:
+			r.Violation(map[string]string{"kind": "configured_id_not_tried_after_timeout"}, fmt.Sprintf("configured %v: after the attempt with %s ran into the handshake timeout, no ClientHello of %s (accepted by the server) was ever sent; hellos received %v (the Dial error is in the replay record)", names, x, y, seq), rep)
+		default:
+			r.Inconclusive(fmt.Sprintf("black-holed scenario: the hello of %s was sent but its handshake did not finish within 1.5 s (machine load?): %v", y, derr))
+		}
+		r.Case(fmt.Sprintf("black-holed|%d|%v", len(names), conn != nil), true)
+	}
+	rs.mu.Lock()
+	rs.stall = map[string]bool{}
+	rs.mu.Unlock()
 	rs.ln.Close()
+	r.Floor("dials_succeeded_after_a_black_holed_fingerprint", 2)
 	r.Floor("dials_succeeded", int64(histories))
 	r.Floor("dials_failed_all_refused", 10)
 	r.Floor("tcp_errors_returned", int64(histories/2))
